@@ -145,6 +145,10 @@ def run(an: Analysis, rep):
     from .common import truthiness_rule
     rep.run(c04.r045, an, SharedRules(rep, "R01.D", "the docstring is co_consts[0] exactly when that is a str - also the empty one (shared with C04's R04.5): otherwise the encoder lays the constants out differently"))
     rep.run(c09.unreferenced_rules, an, SharedRules(rep, "R01.U", "entries no instruction references are listed, each with the override the rank function gives it (shared with C09's R09.3/R09.5): otherwise re-encoding moves them"))
+    from .common import rejection_paths_rule
+    shr = SharedRules(rep, "R01.R", "every place where from_code / to_code can stop with an exception is one confirmed by reading (shared with C02's R02.R / C03's R03.R): 'from_code succeeds' for every compiled code object")
+    rep.run(rejection_paths_rule, an, shr, "R02.R", ["from_code"], c02.DECODER_REJECTIONS, "from_code")
+    rep.run(rejection_paths_rule, an, shr, "R03.R", ["to_code"], c03.ENCODER_REJECTIONS, "to_code")
     rep.run(c03.r035, an, SharedRules(rep, "R01.W", "operand width thresholds (shared with C03's R03.5): an instruction whose recorded width equals the minimal one carries no override, so the encoder's size function must be CPython's"))
     rep.run(c03.r038, an, SharedRules(rep, "R01.F", "the encoder keys a line (and its extra table entries) at the first code unit of the instruction (shared with C03's R03.8)"))
     rep.run(truthiness_rule, an, rep, "R01.T", ["from_code", "to_code"], [("Instruction", "line_number"), ("AdditionalLine", "line")])
